@@ -108,6 +108,7 @@ type State struct {
 	nowsAtLastLog int
 	rangeKeys     []Value
 	selectCount   int
+	framePrefix   string // name prefix of frame obligations (the loop ordinal inside a loop frame check)
 	sumDone       map[string]bool // sumInt instances whose defining equation is already assumed
 	mergeScalars  bool  // option merge-scalar-branches: pure scalar triangles/diamonds become ite instead of two paths
 	rootAllArgs   []Value // closure roots: captured values followed by parameters
@@ -692,6 +693,7 @@ type Engine struct {
 	neverWritten map[*ssa.Global]bool
 	constMaps map[*ssa.Global]*constMap
 	ifConvert bool
+	boundK           int  // > 0: bounded stand-in run, contract-less loops are cut after this many symbolic iterations
 	reachAntecedents bool // thorough tier: audit that the antecedent of every `A ==> B` postcondition is reachable
 }
 
